@@ -1,5 +1,6 @@
 import AthlibVerif.Lemmas.MatchCodes
 import AthlibVerif.Lemmas.MatchWords
+import AthlibVerif.Lemmas.RelayLeg
 import AthlibVerif.Gen.Patterns
 /-!
 Obligations over the regenerated patterns and alphabet: the groups the transcription of
@@ -34,5 +35,16 @@ theorem track_metres : trackMetresOK = true := by decide +kernel
 theorem throws_prefix : fieldPrefixOK true Gen.PAT_THROWS = true := by decide +kernel
 /-- every jumps code starts, up to letter case, with an entry of `FIELD_SORT_ORDER` of two or three letters -/
 theorem jumps_prefix : fieldPrefixOK false Gen.PAT_JUMPS = true := by decide +kernel
+
+/-- the leading-number patterns of `get_distance` only match `\d+\.\d*` / `\d+`; the point is a symbol of its own -/
+theorem leading : leadingOK = true := by decide +kernel
+/-- every relay code contains `x`/`X`; the leg group always takes part and captures no white space, `x`, `X` -/
+theorem relay_leg : relayLegOK = true := by decide +kernel
+/-- no track code is white space only, and none has a relay as its first token -/
+theorem track_token : tokenNotRelayOK Gen.PAT_TRACK = true := by decide +kernel
+
+/-- the event codes that are not relays: none is white space only, none has a relay as its first token -/
+def nonRelayCodes : RE := RE.and Gen.PAT_EVENT_CODE (RE.not Gen.PAT_RELAYS)
+theorem code_token : tokenNotRelayOK nonRelayCodes = true := by decide +kernel
 
 end AthlibVerif.Oblig.C10
